@@ -2073,6 +2073,27 @@ impl<'a, R: FileManager> FrontendCtx<'a, R> {
         visibility: Visibility,
         anchor: &Anchor,
     ) -> Res<Runtype> {
+        self.extract_type_from_ts_entity_name_with_args_file(
+            type_name,
+            ts_type_args,
+            file.clone(),
+            file,
+            visibility,
+            anchor,
+        )
+    }
+
+    // `args_file` is the file the type arguments are written in: for `import("./m").G<Local>` the
+    // name G is looked up in ./m, but Local belongs to the importing file
+    fn extract_type_from_ts_entity_name_with_args_file(
+        &mut self,
+        type_name: &TsEntityName,
+        ts_type_args: &Option<Box<TsTypeParamInstantiation>>,
+        file: BffFileName,
+        args_file: BffFileName,
+        visibility: Visibility,
+        anchor: &Anchor,
+    ) -> Res<Runtype> {
         if let TsEntityName::Ident(ident) = type_name {
             for (n, t) in self.type_application_stack.iter().rev() {
                 if ident.sym == *n {
@@ -2085,7 +2106,7 @@ impl<'a, R: FileManager> FrontendCtx<'a, R> {
             Some(its) => {
                 let mut args = vec![];
                 for ty in &its.params {
-                    let arg_ty = self.extract_type(ty, file.clone())?;
+                    let arg_ty = self.extract_type(ty, args_file.clone())?;
                     args.push(arg_ty);
                 }
                 args
@@ -2768,10 +2789,11 @@ impl<'a, R: FileManager> FrontendCtx<'a, R> {
         {
             match &import_type.qualifier {
                 Some(ts_entity_name) => {
-                    return self.extract_type_from_ts_entity_name(
+                    return self.extract_type_from_ts_entity_name_with_args_file(
                         ts_entity_name,
                         &import_type.type_args,
                         resolved,
+                        file.clone(),
                         Visibility::Export,
                         &anchor,
                     );
@@ -2781,7 +2803,7 @@ impl<'a, R: FileManager> FrontendCtx<'a, R> {
                         Some(its) => {
                             let mut args = vec![];
                             for ty in &its.params {
-                                let arg_ty = self.extract_type(ty, resolved.clone())?;
+                                let arg_ty = self.extract_type(ty, file.clone())?;
                                 args.push(arg_ty);
                             }
                             args
